@@ -45,7 +45,7 @@ CovKeys == {"runs", "events", "computes", "returns", "notconv_with_flags", "succ
             "second_compute", "breakdown_steps", "restarts", "double_shifts", "single_shifts",
             "faults", "init_throw", "compute_throw", "pairs_judged", "conv_judged", "fac_judged",
             "digest_compared", "opprobe_compared", "obs", "expand_basis", "gen_runs", "herm_runs",
-            "fresh_objects", "sorted_checked", "prefix_checked", "known_family_runs", "sel_judged", "sel_skipped_ambiguous", "sel_not_successful"}
+            "fresh_objects", "sorted_checked", "prefix_checked", "known_family_runs", "sel_judged", "sel_skipped_history", "sel_skipped_ambiguous", "sel_not_successful"}
 
 Bump(c, key, by) == [c EXCEPT ![key] = @ + by]
 
@@ -169,7 +169,9 @@ EvRet(e) ==
 
 \* An exception reached the caller.  x: fault (the user's operator) | invalid_argument | runtime_error | logic_error | ...
 EvThrew(e) ==
-    LET ncx == [cx EXCEPT !.call.state = "threw", !.sinceInit = IF e.f = "init" THEN -1 ELSE @,
+    \* a compute() that threw has run too (possibly to convergence, if it was the final sort that rejected the sorting rule): the
+    \* next compute() is NOT "the compute() that directly follows init()" of C06/C14
+    LET ncx == [cx EXCEPT !.call.state = "threw", !.sinceInit = IF e.f = "init" THEN -1 ELSE IF e.f = "compute" /\ @ >= 0 THEN @ + 1 ELSE @,
                           !.nfault = IF e.x = "fault" THEN @ + 1 ELSE @,
                           !.armed = IF e.x = "fault" THEN 0 ELSE @]
     IN
@@ -305,8 +307,12 @@ SelOK(e) ==
     ELSE TF!WantedOK(e.rule, [j \in 1 .. Len(e.re2) |-> TF!Nu(cx.mode, e.re2[j], e.sig2, e.sigi2)], SelIdx(e), e.k)
 \* every returned value must lie within the residual-level bound of the prescribed value it was matched to
 SelMatched(e) == Len(e.ridx) = e.k /\ \A i \in 1 .. Len(e.qdist) : QLe(e.qdist[i], PairBound(cx.qnA, cx.call.qtol) + 64)
+\* C04 quantifies over inputs and configurations with the DEFAULT start vector: only the compute() that directly follows an init() is
+\* judged.  (A compute() that continues a factorization which has already converged for another rule sees a nearly invariant Krylov
+\* space and can report the pairs it already holds: observed on the unchanged tree, outside the property's domain.)
 EvMSel(e) ==
-    IF e.info # 0 THEN Res(s, {}, cx)
+    IF cx.sinceInit # 1 THEN Res(s, {}, cx)
+    ELSE IF e.info # 0 THEN Res(s, {}, cx)
     ELSE IF ~SelDetermined(e) THEN Res(s, {}, cx)
     ELSE Res(s, If(SelMatched(e), "ReturnedInPrescribedSpectrum")
                 \cup (IF SelMatched(e) THEN If(Cardinality(SelIdx(e)) = e.k, "ReturnedDistinct") \cup If(SelOK(e), "ReturnedIsWanted") ELSE {}), cx)
@@ -367,7 +373,8 @@ CovOf(e, r) ==
                 [] e.e = "Threw" -> IF e.x = "fault" THEN Bump(c0, "faults", 1)
                                     ELSE IF e.f = "init" THEN Bump(c0, "init_throw", 1) ELSE Bump(c0, "compute_throw", 1)
                 [] e.e = "MPairs" -> Bump(c0, "pairs_judged", Len(e.qres))
-                [] e.e = "MSel" -> IF e.info # 0 THEN Bump(c0, "sel_not_successful", 1)
+                [] e.e = "MSel" -> IF cx.sinceInit # 1 THEN Bump(c0, "sel_skipped_history", 1)
+                                   ELSE IF e.info # 0 THEN Bump(c0, "sel_not_successful", 1)
                                    ELSE IF SelDetermined(e) THEN Bump(c0, "sel_judged", 1) ELSE Bump(c0, "sel_skipped_ambiguous", 1)
                 [] e.e = "MConv" -> Bump(c0, "conv_judged", Len(e.qres))
                 [] e.e = "MFac" -> Bump(c0, "fac_judged", 1)
